@@ -1,0 +1,104 @@
+//go:build verif
+
+package dht_pb
+
+// Contracts for the wire-message helpers (properties C09, C10). Comment-only.
+
+/*@
+immutable "github.com/libp2p/go-libp2p-kad-dht/pb.peerAddrsTagSize"
+
+# framed size of the first i addresses of a record
+specfn asum(a map[int][]byte, i int) int
+axiom asum_zero(a map[int][]byte): asum(a, 0) == 0
+axiom asum_step(a map[int][]byte, i int): imp(i >= 0, asum(a, i+1) == asum(a, i) + peerAddrsTagSize + protowire.SizeBytes(len(a[i])))
+# monotone partial sums; the inductive step is proved as lemma asum_mono_step
+axiom asum_mono(a map[int][]byte, i int, j int): imp(0 <= i && i <= j, asum(a, i) <= asum(a, j))
+lemma asum_mono_step(a map[int][]byte, i int, j int)
+  requires 0 <= i && i <= j && peerAddrsTagSize >= 0 && len(a[j]) >= 0
+  requires asum(a, i) <= asum(a, j)
+  ensures asum(a, i) <= asum(a, j+1)
+
+# size of id + connection fields (everything but the addresses)
+pred recBase(pbp *Message_Peer) = protowire.SizeTag(peerIDField) + protowire.SizeBytes(len(pbp.Id)) + protowire.SizeTag(peerConnectionField) + protowire.SizeVarint(uint64(int64(pbp.Connection)))
+pred recBounded(pbp *Message_Peer) = recBase(pbp) + asum(arr(pbp.Addrs), len(pbp.Addrs)) <= MaxPeerRecordSize || len(pbp.Addrs) == 0
+
+func boundPeerRecordAddrs(pbp *Message_Peer)
+  props C09 C10
+  nullable pbp
+  requires peerAddrsTagSize >= 0
+  modifies pbp.Addrs
+  ensures [prefix] imp(pbp != nil, len(pbp.Addrs) <= old(len(pbp.Addrs)) && arr(pbp.Addrs) == old(arr(pbp.Addrs)))
+  ensures [bounded] imp(pbp != nil, recBounded(pbp))
+  ensures [untouched] imp(pbp != nil && recBase(pbp) + asum(old(arr(pbp.Addrs)), old(len(pbp.Addrs))) <= MaxPeerRecordSize, len(pbp.Addrs) == old(len(pbp.Addrs)))
+  ensures [maximal] imp(pbp != nil && len(pbp.Addrs) < old(len(pbp.Addrs)), recBase(pbp) + asum(arr(pbp.Addrs), len(pbp.Addrs)+1) > MaxPeerRecordSize)
+  loop over pbp.Addrs invariant size == recBase(pbp) + asum(arr(pbp.Addrs), $key) && ($key == 0 || size <= MaxPeerRecordSize)
+  loop over pbp.Addrs invariant pbp.Addrs == old(pbp.Addrs) && pbp.Id == old(pbp.Id) && pbp.Connection == old(pbp.Connection)
+
+func ConnectionType(c network.Connectedness) Message_ConnectionType
+  props C09
+  modifies nothing
+  ensures result == ite(c == network.Connected, Message_CONNECTED, Message_NOT_CONNECTED)
+
+func peerInfoToPBPeer(p peer.AddrInfo) *Message_Peer
+  props C09 C06
+  requires peerAddrsTagSize >= 0
+  modifies nothing
+  ensures fresh(result) && recBounded(result) && str(result.Id) == p.ID && result.Connection == 0 && len(result.Addrs) <= len(p.Addrs)
+  loop over p.Addrs invariant pbp != nil && len(pbp.Addrs) == len(p.Addrs) && fresh(pbp)
+
+func peerRoutingInfoToPBPeer(p PeerRoutingInfo) *Message_Peer
+  props C09
+  requires peerAddrsTagSize >= 0
+  modifies nothing
+  ensures fresh(result) && recBounded(result) && str(result.Id) == p.ID && len(result.Addrs) <= len(p.Addrs)
+  loop over p.Addrs invariant pbp != nil && len(pbp.Addrs) == len(p.Addrs) && fresh(pbp)
+
+func PeerInfoToPBPeer(n network.Network, p peer.AddrInfo) *Message_Peer
+  props C09 C06
+  requires peerAddrsTagSize >= 0
+  modifies nothing
+  ensures fresh(result) && recBounded(result) && str(result.Id) == p.ID && len(result.Addrs) <= len(p.Addrs)
+  ensures result.Connection == Message_CONNECTED || result.Connection == Message_NOT_CONNECTED
+
+func PeerInfosToPBPeers(n network.Network, peers []peer.AddrInfo) []*Message_Peer
+  props C09
+  requires peerAddrsTagSize >= 0
+  modifies nothing
+  ensures len(result) == len(peers)
+  ensures all(i, 0, len(result), result[i] != nil && recBounded(result[i]) && str(result[i].Id) == peers[i].ID && len(result[i].Addrs) <= len(peers[i].Addrs))
+  loop over peers invariant len(pbps) == len(peers)
+  loop over peers invariant all(j, 0, $key, pbps[j] != nil && fresh(pbps[j]) && recBounded(pbps[j]) && str(pbps[j].Id) == peers[j].ID && len(pbps[j].Addrs) <= len(peers[j].Addrs))
+
+func RawPeerInfosToPBPeers(peers []peer.AddrInfo) []*Message_Peer
+  props C09 C06
+  requires peerAddrsTagSize >= 0
+  modifies nothing
+  ensures len(result) == len(peers)
+  ensures all(i, 0, len(result), result[i] != nil && recBounded(result[i]) && str(result[i].Id) == peers[i].ID && result[i].Connection == 0 && len(result[i].Addrs) <= len(peers[i].Addrs))
+  loop over peers invariant len(pbpeers) == len(peers)
+  loop over peers invariant all(j, 0, $key, pbpeers[j] != nil && fresh(pbpeers[j]) && recBounded(pbpeers[j]) && str(pbpeers[j].Id) == peers[j].ID && pbpeers[j].Connection == 0 && len(pbpeers[j].Addrs) <= len(peers[j].Addrs))
+
+func (m *Message_Peer) Addresses() []ma.Multiaddr
+  props C10
+  nullable m
+  modifies nothing
+  ensures imp(m == nil, len(result) == 0)
+  ensures imp(m != nil, len(result) <= len(m.Addrs))
+  loop over m.Addrs invariant len(maddrs) <= $key
+
+func PBPeerToPeerInfo(pbp *Message_Peer) peer.AddrInfo
+  props C10
+  modifies nothing
+  ensures result.ID == str(pbp.Id) && len(result.Addrs) <= len(pbp.Addrs)
+
+func PBPeersToPeerInfos(pbps []*Message_Peer) []*peer.AddrInfo
+  props C09 C10
+  requires peerAddrsTagSize >= 0
+  requires all(i, 0, len(pbps), pbps[i] != nil)
+  modifies *
+  ensures len(result) == len(pbps)
+  ensures all(i, 0, len(result), result[i] != nil && result[i].ID == str(pbps[i].Id) && recBounded(pbps[i]))
+  loop over pbps invariant len(peers) == $key
+  loop over pbps invariant all(j, 0, $key, peers[j] != nil && fresh(peers[j]) && allocated(peers[j]) && peers[j].ID == str(pbps[j].Id) && recBounded(pbps[j]))
+  loop over pbps invariant all(j, 0, len(pbps), pbps[j] != nil && !fresh(pbps[j]))
+@*/
